@@ -18,6 +18,7 @@ import (
 	serrors "github.com/jamf/regatta/storage/errors"
 	"github.com/jamf/regatta/storage/kv"
 	"github.com/jamf/regatta/storage/table"
+	sm "github.com/lni/dragonboat/v4/statemachine"
 )
 
 // backend is what the managers' store calls end up in.
@@ -110,6 +111,7 @@ type step struct {
 	res  uint8
 	seen rec    // get: what was returned; set/delete: record immediately before
 	ver  uint64 // set/delete: version passed by the manager
+	grp  uint8  // >0: committed as part of batch number grp (one Update call)
 }
 
 func (s step) String() string {
@@ -122,13 +124,22 @@ func (s step) String() string {
 		return fmt.Sprintf("%s:get=%s", who, s.seen)
 	case opSet, opDel:
 		out := [...]string{"ok", "version-mismatch", "error"}[s.res]
+		if s.grp != 0 {
+			return fmt.Sprintf("[batch %d] %s:%s(v%d) on %s -> %s", s.grp, who, opNames[s.op], s.ver, s.seen, out)
+		}
 		return fmt.Sprintf("%s:%s(v%d) on %s -> %s", who, opNames[s.op], s.ver, s.seen, out)
 	}
 	return fmt.Sprintf("%s:%s", who, opNames[s.op])
 }
 
 // sig is the compact interleaving signature of a step (who, what, how it ended).
-func (s step) sig() [3]byte { return [3]byte{'0' + s.cl, "gsdxa"[s.op], "omE"[s.res]} }
+func (s step) sig() [3]byte {
+	res := "omE"[s.res]
+	if s.grp != 0 {
+		res = 0x80 | s.grp<<2 | s.res // batched entries sign differently (and per batch)
+	}
+	return [3]byte{'0' + s.cl, "gsdxa"[s.op], res}
+}
 
 type violation struct {
 	Sig  string `json:"signature"`
@@ -225,6 +236,7 @@ type client struct {
 	node uint64                // NodeID of the manager
 	gate func(idx int, op int) // nil = free running (stress)
 	cur  *callState
+	pw   *writeReq // the lease write this client is parked on
 }
 
 func isLeaseKey(k string) bool { return strings.HasSuffix(k, "/lease") }
@@ -294,19 +306,72 @@ func (c *client) closeWindow(wrote bool) {
 	m.winCrossed[c.idx] = false
 }
 
+// writeReq is one lease write of a manager: announced before parking, so that the scheduler can
+// commit several parked writes in one Update call (what Raft does with proposals that arrive
+// together) and hand each writer its result.
+type writeReq struct {
+	op    int
+	key   string
+	value string
+	ver   uint64
+	done  bool // committed by the scheduler as part of a batch; pair/err hold the result
+	pair  kv.Pair
+	err   error
+}
+
 func (c *client) Set(key, value string, ver uint64) (kv.Pair, error) {
-	c.park(opSet)
 	if !isLeaseKey(key) {
+		c.park(opSet)
 		return c.m.be.Set(key, value, ver)
+	}
+	w := &writeReq{op: opSet, key: key, value: value, ver: ver}
+	c.pw = w
+	c.park(opSet)
+	c.pw = nil
+	if w.done {
+		return w.pair, w.err
 	}
 	m := c.m
 	m.mu.Lock()
 	defer m.mu.Unlock()
-	ks := m.key(key)
 	before, bok := m.parse(m.be.Get(key))
-	p, err := m.be.Set(key, value, ver) // linearization point of the write
+	w.pair, w.err = m.be.Set(key, value, ver) // linearization point of the write
+	m.judgeWrite(c, w, before, bok, true, 0)
+	return w.pair, w.err
+}
+
+func (c *client) Delete(key string, ver uint64) error {
+	if !isLeaseKey(key) {
+		c.park(opDel)
+		return c.m.be.Delete(key, ver)
+	}
+	w := &writeReq{op: opDel, key: key, ver: ver}
+	c.pw = w
+	c.park(opDel)
+	c.pw = nil
+	if w.done {
+		return w.err
+	}
+	m := c.m
+	m.mu.Lock()
+	defer m.mu.Unlock()
+	before, bok := m.parse(m.be.Get(key))
+	w.err = m.be.Delete(key, ver) // linearization point
+	m.judgeWrite(c, w, before, bok, true, 0)
+	return w.err
+}
+
+// judgeWrite judges one lease write (result in w.pair / w.err) at its linearization point.
+// before is the record standing immediately before it. readBack: compare with the record the
+// store holds right after (single proposals); inside a batch the state between two entries of
+// one Update call cannot be read: it is, by definition of applying a log in order, what the
+// entries acknowledged so far produced, and the caller checks the end of the batch.
+// Must be called with m.mu held. Returns the record standing after the write.
+func (m *monitor) judgeWrite(c *client, w *writeReq, before rec, bok bool, readBack bool, grp uint8) rec {
+	key, ver, err := w.key, w.ver, w.err
+	ks := m.key(key)
 	c.closeWindow(true)
-	st := step{node: uint8(c.node), cl: uint8(c.idx), op: opSet, seen: before, ver: ver}
+	st := step{node: uint8(c.node), cl: uint8(c.idx), op: uint8(w.op), seen: before, ver: ver, grp: grp}
 	switch {
 	case err == nil:
 		st.res = resOK
@@ -324,30 +389,35 @@ func (c *client) Set(key, value string, ver uint64) (kv.Pair, error) {
 		if c.cur != nil {
 			c.cur.tainted = true
 		}
-		m.unsure("set %s by n%d: ambiguous store outcome: %v", key, c.node, err)
-		return p, err
+		m.unsure("%s %s by n%d: ambiguous store outcome: %v", opNames[w.op], key, c.node, err)
+		return before
 	}
 	if ks.tainted {
-		return p, err
+		return before
+	}
+	if w.op == opDel {
+		return m.judgeDelete(c, w, ks, before, st, readBack)
 	}
 	if st.res == resMismatch {
 		m.st.add("cas_rejected_set", 1)
 		if c.cur != nil && c.cur.read != nil && !c.cur.read.present {
 			m.st.add("first_claims_lost_race", 1)
 		}
-		return p, err
+		return before
 	}
 	// ---- a successful lease write by c.node
 	if c.cur != nil {
 		c.cur.sets++
 	}
-	wr, _ := m.parse(kv.Pair{Value: value, Ver: p.Ver}, nil)
-	after, aok := m.parse(m.be.Get(key))
-	if !aok || !after.present || after.owner != wr.owner || after.kind != wr.kind {
-		// the store did not keep what it acknowledged: that is C13's subject, not ours
-		ks.tainted = true
-		m.unsure("set %s by n%d acknowledged but record after is %s", key, c.node, after)
-		return p, err
+	wr, _ := m.parse(kv.Pair{Value: w.value, Ver: w.pair.Ver}, nil)
+	if readBack {
+		after, aok := m.parse(m.be.Get(key))
+		if !aok || !after.present || after.owner != wr.owner || after.kind != wr.kind {
+			// the store did not keep what it acknowledged: that is C13's subject, not ours
+			ks.tainted = true
+			m.unsure("set %s by n%d acknowledged but record after is %s", key, c.node, after)
+			return after
+		}
 	}
 	var read *rec
 	if c.cur != nil {
@@ -360,26 +430,30 @@ func (c *client) Set(key, value string, ver uint64) (kv.Pair, error) {
 	if before.present && before.kind == kAmbig || wr.kind == kAmbig {
 		m.unsure("lease record with ambiguous expiry (before %s, written %s)", before, wr)
 		ks.tainted = true
-		return p, err
+		return wr
+	}
+	how := ""
+	if grp != 0 {
+		how = " (both writes were committed in the same Update batch of the state machine)"
 	}
 	// (1) granted only if unclaimed, own, or expired
 	if before.present && before.owner != c.node && before.kind == kLive {
 		m.violate("lease-write-over-live-foreign-lease",
-			"n%d's lease write (version %d, it had read %s) succeeded while the record was %s: an unexpired lease of another node was overwritten",
-			c.node, ver, readS, before)
+			"n%d's lease write (version %d, it had read %s) succeeded while the record was %s: an unexpired lease of another node was overwritten%s",
+			c.node, ver, readS, before, how)
 	}
 	// (2) of racing requests at most one succeeds: a successful write must not replace a
 	// record the writer never saw (written by somebody else between its read and its write)
 	if before.present && (read == nil || !read.present || read.ver != before.ver) {
 		m.violate("racing-lease-requests-both-succeed",
-			"n%d's lease write (version %d) succeeded over %s although it had read %s: both racing requests succeeded",
-			c.node, ver, before, readS)
+			"n%d's lease write (version %d) succeeded over %s although it had read %s: both racing requests succeeded%s",
+			c.node, ver, before, readS, how)
 	}
 	// (3) shadow: holders according to the history of successful writes
 	if ks.holder != 0 && ks.holder != c.node {
 		m.violate("two-unexpired-holders",
-			"n%d's lease write succeeded while n%d's last successful Lease(+1h) had neither been returned by n%d nor expired (record before: %s)",
-			c.node, ks.holder, ks.holder, before)
+			"n%d's lease write succeeded while n%d's last successful Lease(+1h) had neither been returned by n%d nor expired (record before: %s)%s",
+			c.node, ks.holder, ks.holder, before, how)
 	}
 	if wr.owner != c.node {
 		m.violate("lease-written-for-other-node", "n%d wrote a lease record owned by n%d", c.node, wr.owner)
@@ -397,56 +471,24 @@ func (c *client) Set(key, value string, ver uint64) (kv.Pair, error) {
 	} else {
 		ks.holder = 0
 	}
-	return p, err
+	return wr
 }
 
-func (c *client) Delete(key string, ver uint64) error {
-	c.park(opDel)
-	if !isLeaseKey(key) {
-		return c.m.be.Delete(key, ver)
-	}
-	m := c.m
-	m.mu.Lock()
-	defer m.mu.Unlock()
-	ks := m.key(key)
-	before, bok := m.parse(m.be.Get(key))
-	err := m.be.Delete(key, ver) // linearization point
-	c.closeWindow(true)
-	st := step{node: uint8(c.node), cl: uint8(c.idx), op: opDel, seen: before, ver: ver}
-	switch {
-	case err == nil:
-		st.res = resOK
-	case errors.Is(err, kv.ErrVersionMismatch):
-		st.res = resMismatch
-	default:
-		st.res = resErr
-	}
-	if m.keepTrace {
-		m.trace = append(m.trace, st)
-	}
-	if !bok || st.res == resErr {
-		ks.tainted = true
-		if c.cur != nil {
-			c.cur.tainted = true
-		}
-		m.unsure("delete %s by n%d: ambiguous store outcome: %v", key, c.node, err)
-		return err
-	}
-	if ks.tainted {
-		return err
-	}
+func (m *monitor) judgeDelete(c *client, w *writeReq, ks *keyState, before rec, st step, readBack bool) rec {
 	if st.res == resMismatch {
 		m.st.add("cas_rejected_delete", 1)
-		return err
+		return before
 	}
 	if c.cur != nil {
 		c.cur.dels++
 	}
-	after, aok := m.parse(m.be.Get(key))
-	if !aok || after.present {
-		ks.tainted = true
-		m.unsure("delete %s by n%d acknowledged but record after is %s", key, c.node, after)
-		return err
+	if readBack {
+		after, aok := m.parse(m.be.Get(w.key))
+		if !aok || after.present {
+			ks.tainted = true
+			m.unsure("delete %s by n%d acknowledged but record after is %s", w.key, c.node, after)
+			return after
+		}
 	}
 	switch {
 	case !before.present:
@@ -454,14 +496,69 @@ func (c *client) Delete(key string, ver uint64) error {
 		m.st.add("return_delete_found_nothing", 1)
 	case before.owner != c.node:
 		m.violate("return-removed-foreign-lease",
-			"n%d's delete (version %d) removed the record %s, a lease owned by another node", c.node, ver, before)
+			"n%d's delete (version %d) removed the record %s, a lease owned by another node", c.node, w.ver, before)
 	default:
 		m.st.add("return_ok_own", 1)
 		if ks.holder == c.node {
 			ks.holder = 0
 		}
 	}
-	return err
+	return rec{}
+}
+
+// batcher is a backend that can commit several proposals in one Update call of the state machine.
+type batcher interface {
+	proposeBatch(ups []kv.Update) ([]sm.Result, error)
+}
+
+// commitBatch commits the parked lease writes of cls (in this order) as ONE batch: consecutive
+// log indices, a single Update call, as the Raft group does with proposals that arrive in the
+// same step. Each entry is judged at its position in the log. Called by the scheduler while
+// every manager goroutine is parked.
+func (m *monitor) commitBatch(cls []*client, grp uint8) {
+	m.mu.Lock()
+	defer m.mu.Unlock()
+	ups := make([]kv.Update, len(cls))
+	model := map[string]rec{}
+	okBefore := map[string]bool{}
+	for i, c := range cls {
+		w := c.pw
+		op := kv.UpdateOpSet
+		if w.op == opDel {
+			op = kv.UpdateOpDelete
+		}
+		ups[i] = kv.Update{Op: op, KVPair: kv.Pair{Key: w.key, Value: w.value, Ver: w.ver}}
+		if _, seen := model[w.key]; !seen {
+			model[w.key], okBefore[w.key] = m.parse(m.be.Get(w.key))
+		}
+	}
+	res, err := m.be.(batcher).proposeBatch(ups)
+	m.st.add("batches_committed", 1)
+	m.st.add("batched_writes", int64(len(cls)))
+	for i, c := range cls {
+		w := c.pw
+		w.done = true
+		switch {
+		case err != nil:
+			w.err = err
+		case w.op == opSet:
+			w.pair, w.err = decodeSetResult(res[i], ups[i].KVPair)
+		default:
+			w.err = decodeDeleteResult(res[i])
+		}
+		model[w.key] = m.judgeWrite(c, w, model[w.key], okBefore[w.key], false, grp)
+	}
+	// end of the batch: the store must hold what the acknowledged entries produced
+	for k, want := range model {
+		if ks := m.key(k); ks.tainted {
+			continue
+		}
+		got, ok := m.parse(m.be.Get(k))
+		if !ok || got.present != want.present || got.present && (got.owner != want.owner || got.kind != want.kind || got.ver != want.ver) {
+			m.key(k).tainted = true
+			m.unsure("after a batch of %d proposals %s holds %s, the acknowledged results say %s", len(cls), k, got, want)
+		}
+	}
 }
 
 // beginCall / endCall bracket one LeaseTable / ReturnTable call of this client's manager.
